@@ -187,12 +187,12 @@ def make_request(r, d, ms, family="normal"):
 
 def make_reply(r, d, ms):
     if ms["output"] == ".google.protobuf.Empty":
-        return None, "{}"
+        return None, "{}", False
     m = d.random(r, ms["output"], fill=0.7)
-    obj = json.loads(json_format.MessageToJson(m, use_integers_for_enums=r.random() < 0.5,
-                                               preserving_proto_field_name=r.random() < 0.3))
+    proto_names = r.random() < 0.3
+    obj = json.loads(json_format.MessageToJson(m, use_integers_for_enums=r.random() < 0.5, preserving_proto_field_name=proto_names))
     obj["zzUnknownField"] = {"x": [1, 2]}
-    return m, json.dumps(obj)
+    return m, json.dumps(obj), proto_names
 
 
 # ------------------------------------------------------------------ T1 readers (ast, fail-closed)
@@ -349,7 +349,10 @@ def run_library(job):
             m = job["fixed"][ms["name"]][j] if job.get("fixed") and ms["name"] in job["fixed"] and j < len(job["fixed"][ms["name"]]) else make_request(r, d, ms, fam)
             if isinstance(m, str):
                 m = d.parse(ms["input"], m)
-            reply, reply_json = make_reply(r, d, ms)
+            reply, reply_json, reply_proto_names = make_reply(r, d, ms)
+            if job.get("fixed_reply") and ms["name"] in job["fixed_reply"]:
+                rb, reply_json, reply_proto_names = job["fixed_reply"][ms["name"]]
+                reply = d.parse(ms["output"], rb)
             spec = {"service_module": SVC_MOD, "client": CLIENT, "transport": "rest", "method": ms["py"],
                     "http_default": {"status": 200, "body": reply_json}}
             cls = f"{A.PYPKG}:{ms['input'].split('.')[-1]}"
@@ -358,7 +361,8 @@ def run_library(job):
             else:
                 spec["request"] = {"mode": "message", "cls": cls, "b64": d.b64(m)}
             calls.append(spec)
-            meta.append({"method": ms["name"], "family": fam, "msg_b64": d.b64(m), "reply_b64": d.b64(reply) if reply is not None else None})
+            meta.append({"method": ms["name"], "family": fam, "msg_b64": d.b64(m), "reply_b64": d.b64(reply) if reply is not None else None,
+                         "reply_proto_names": reply_proto_names})
     root = gen.case_dir(f"c04-{idx}-{int(numeric)}-{job.get('seed_tag', '')}")
     try:
         gen.materialize(out, root)
@@ -491,7 +495,13 @@ def evaluate(ctx, jobs, results, tag):
                         if got.get("kind") != "none":
                             probs.append((f"void method returned {got.get('kind')}", None))
                     elif got.get("kind") != "msg" or d.parse(ms["output"], got["b64"]) != d.parse(ms["output"], c["reply_b64"]):
-                        probs.append((f"JSON reply did not decode into the declared response type {ms['output']}: got {str(got)[:120]}", None))
+                        sent = d.parse(ms["output"], c["reply_b64"])
+                        kwleaf = [l for l in A.leaves_of(sent) if any(k == "F" and v in reserved for k, v in l["path"])]
+                        sig = "http.reply_proto_name_reserved_word" if c.get("reply_proto_names") and kwleaf and got.get("kind") == "msg" else None
+                        have = json_format.MessageToDict(d.parse(ms["output"], got["b64"]), preserving_proto_field_name=True) if got.get("kind") == "msg" else got
+                        probs.append((f"JSON reply {json_format.MessageToDict(sent, preserving_proto_field_name=True)} "
+                                      f"{'(keyed by the original proto field names) ' if c.get('reply_proto_names') else ''}"
+                                      f"did not decode into the declared response type {ms['output']}: client returned {str(have)[:300]}", sig))
             else:
                 probs += O.check_error(ms, msg, c["error"]["exception"], c["error"]["message"], reserved)
             for what, sig in probs:
@@ -613,6 +623,9 @@ def witness_api():
     svc.rpc("Body", b.fqn, rep.fqn, http=("get", "/v1/{name=items/*}"), more_http=[("post", "/v1/{parent=ps/*}/items", "*")])
     svc.rpc("Seg", s.fqn, rep.fqn, http=("get", "/v1/{a=*}/{b=**}"))
     svc.rpc("Bytes", y.fqn, rep.fqn, http=("get", "/v1/{name=items/*}"))
+    e = f.message("EchoRequest"); e.field("name", 1, "string")
+    kr = f.message("KwReply"); kr.field("ignore_unknown_fields", 1, "string").field("note", 2, "string")
+    svc.rpc("Echo", e.fqn, kr.fqn, http=("get", "/v1/{name=items/*}:echo"))
     return apigen.request([f])
 
 
@@ -626,8 +639,12 @@ def run_witnesses(ctx):
         "Body": [d.b64(d.new(P + ".BodyRequest", parent="ps/p", title="t"))],
         "Seg": [d.b64(d.new(P + ".SegRequest", a="x/y", b="z"))],
         "Bytes": [d.b64(d.new(P + ".BytesRequest", name="items/i"))],
+        "Echo": [d.b64(d.new(P + ".EchoRequest", name="items/i"))],
     }
-    jobs = [{"idx": 900, "numeric": False, "req": req, "ncalls": 1, "families": ["normal"], "fixed": fixed, "seed_tag": "wit"}]
+    kw_reply = d.new(P + ".KwReply", note="n", ignore_unknown_fields="c")
+    fixed_reply = {"Echo": (d.b64(kw_reply), json.dumps({"ignore_unknown_fields": "c", "note": "n"}), True)}
+    jobs = [{"idx": 900, "numeric": False, "req": req, "ncalls": 1, "families": ["normal"], "fixed": fixed, "fixed_reply": fixed_reply,
+             "seed_tag": "wit"}]
     results = gen.pmap(run_library, jobs)
     before = len(ctx.violations)
     evaluate(ctx, jobs, results, "witness")
